@@ -92,7 +92,7 @@ def main(tier, replay):
         traces.append((sc, r))
     if len(samples) < 3:
         samples = [{"scenario": sc, "told": r.get("told"), "crashed": r.get("crashed")} for sc, r in traces[len(probes):len(probes) + 3]]
-    acc = run_acceptor(traces, v, PID)
+    acc = run_acceptor(traces, v, PID, exe=exe)
     cov.update(acc)
     if not gate["ok"]:
         v.violation({"kind": "proof", "theorem_or_file": gate["problems"], "what": "Coq obligations no longer check"}, has_input=False)
